@@ -9,8 +9,10 @@ Code-following part (`instantiate`, `resolveBuiltin`) models, as the code is in 
   (stone/frontend/ir_generator.py): positional / keyword bookkeeping from the `__init__` signature
   (`Tables.feInitSigs`, extracted from stone/ir/data_types.py),
 * the `__init__` parameter checks of `_BoundedInteger`, `_BoundedFloat`, `String`, `Timestamp`, `List`, `Map`
-  (stone/ir/data_types.py), including Python's partiality: `<` between a `str` / the `null` token / a data type
-  and an `int` raises `TypeError`, which is *not* caught by `_instantiate_data_type` (only `ParameterError` is).
+  (stone/ir/data_types.py).  Every comparison in them is guarded by an `isinstance` test of its operand, so the only
+  exception besides `ParameterError` (which `_instantiate_data_type` turns into `InvalidSpec`) that the constructor
+  call could raise is the `TypeError` of a call with the wrong number of arguments -- the positional bookkeeping in
+  front of it excludes that (`instantiate_no_crash`).
 
 Specification-level part (`legalArgs`, `legalRef`): written from the "Basic Types" table of docs/lang_ref.rst
 (required = bold = positional, optional = keyword, kinds and ranges); it does not follow the code.
@@ -115,13 +117,6 @@ def Arg.num? : Arg → Option Num
   | .float x => some (.f x)
   | _ => none
 
-def Num.toF : Num → FVal
-  | .i n => .fin n 1
-  | .f x => x
-
-/-- exact comparison, as Python compares `int` and `float` -/
-def Num.lt (a b : Num) : Bool := a.toF.lt b.toF
-
 /-- Python truthiness of an argument value -/
 def Arg.truthy : Arg → Bool
   | .int i => i != 0
@@ -138,11 +133,6 @@ def Arg.isTy : Arg → Bool
 def Arg.isStr : Arg → Bool
   | .str _ => true
   | _ => false
-
-/-- truthiness of a parameter that may be absent (`None`) -/
-def optTruthy : Option Arg → Bool
-  | none => false
-  | some a => a.truthy
 
 /-! ## Errors -/
 
@@ -166,12 +156,6 @@ inductive FeErr where
   | crash (e : PyExc)
   deriving DecidableEq, Repr, Inhabited
 
-/-- Python `a < b` where both sides must be numbers: anything else is a `TypeError` -/
-def pyLt (a b : Arg) : Except FeErr Bool :=
-  match a.num?, b.num? with
-  | some x, some y => .ok (x.lt y)
-  | _, _ => .error (.crash .typeError)
-
 /-! ## The instantiated type -/
 
 /-- what the constructed `DataType` instance stores -/
@@ -181,7 +165,7 @@ inductive TyVal where
   | float (k : TyKind) (lo hi : Option FVal)
   | string (minLen maxLen : Option Int) (pattern : Option Arg)
   | timestamp (fmt : String)
-  | list (elem : Arg) (minItems maxItems : Option Arg)
+  | list (elem : Arg) (minItems maxItems : Option Int)
   | map (key val : Arg)
   deriving DecidableEq, Repr, Inhabited
 
@@ -243,7 +227,7 @@ def floatBound (isMin : Bool) (limit : Option FVal) : Option Arg → Except FeEr
         | none => .ok (some x)
         | some l => if (if isMin then x.lt l else l.lt x) then bad else .ok (some x)
 
-/-- `String.__init__`, one length: integral and not below `least` -/
+/-- `String.__init__` / `List.__init__`, one length: integral and not below `least` -/
 def lenBound (least : Int) : Option Arg → Except FeErr (Option Int)
   | none => .ok none
   | some a =>
@@ -263,13 +247,6 @@ def patternArg (rx : String → Bool) : Option Arg → Except FeErr (Option Arg)
     else match p with
       | .str s => if rx s then .ok (some p) else bad
       | _ => bad
-
-/-- `List.__init__`, `x is not None and x < least` -/
-def itemsBound (least : Int) : Option Arg → Except FeErr Unit
-  | none => .ok ()
-  | some a => do
-    let lt ← pyLt a (.int least)
-    if lt then bad else .ok ()
 
 /-- the constructor call `data_type_class(*pos_args, **kw_args)` -/
 def construct (rx : String → Bool) (k : TyKind) (pos : List Arg) (kw : List (String × Arg)) : Except FeErr TyVal :=
@@ -295,20 +272,17 @@ def construct (rx : String → Bool) (k : TyKind) (pos : List Arg) (kw : List (S
     match a with
     | .str s => .ok (.timestamp s)
     | _ => bad
-  | .list, [a] => do
-    let mn := kw.lookup "min_items"
-    let mx := kw.lookup "max_items"
-    itemsBound 0 mn
-    itemsBound 1 mx
-    if optTruthy mn && optTruthy mx then
-      let lt ← pyLt (mx.getD .null) (mn.getD .null)
-      if lt then bad else .ok (.list a mn mx)
-    else .ok (.list a mn mx)
+  | .list, [a] =>
+    if !a.isTy then bad else do            -- "data_type must be a data type"
+    let mn ← lenBound 0 (kw.lookup "min_items")
+    let mx ← lenBound 1 (kw.lookup "max_items")
+    if optIntTruthy mn && optIntTruthy mx && (mx.getD 0 < mn.getD 0) then bad else
+    .ok (.list a mn mx)
   | .map, [key, val] =>
     match key with
-    | .ty true => .ok (.map key val)
+    | .ty true => if !val.isTy then bad else .ok (.map key val)   -- "value_data_type must be a data type"
     | _ => bad
-  | _, _ => .error (.crash .typeError)     -- wrong arity: unreachable after the positional checks
+  | _, _ => .error (.crash .typeError)     -- a call with the wrong number of arguments
 
 /-- parser duplicate-keyword check, then `_instantiate_data_type` -/
 def instantiate (rx : String → Bool) (k : TyKind) (pos : List Arg) (kw : List (String × Arg)) : Except FeErr TyVal :=
@@ -416,25 +390,11 @@ def legalArgs (rx : String → Bool) (k : TyKind) (pos : List Arg) (kw : List (S
 def legalRef (rx : String → Bool) (k : TyKind) (pos : List Arg) (kw : List (String × Arg)) (nullable : Bool) : Bool :=
   legalArgs rx k pos kw && !(k == .void && nullable)
 
-/-! ## The known holes (accepted although illegal) and crash sites, as predicates on the input
+/-! ## The known holes (accepted although illegal), as predicates on the input
 
-Used as exclusions by the `_partial` theorems; each is witnessed in Props/C01.lean / Props/C03.lean and replayed on
-the implementation by the `fe.params` suite. -/
-
-/-- H1: `List(3)`, `Map(String, 3)`: element / value argument that is not a type (List.__init__ / Map.__init__ store
-whatever they get). -/
-def holeElemNotType (k : TyKind) (pos : List Arg) : Bool :=
-  match k, pos with
-  | .list, [a] => !a.isTy
-  | .map, [_, v] => !v.isTy
-  | _, _ => false
-
-/-- H2: `List(T, min_items=1.5)`: a non-integral number as a list length (List.__init__ has no integrality check) -/
-def holeFloatLength (k : TyKind) (kw : List (String × Arg)) : Bool :=
-  k == .list && ["min_items", "max_items"].any (fun key =>
-    match kw.lookup key with
-    | some a => a.num?.isSome && a.integral?.isNone
-    | none => false)
+Used as exclusions by the `_partial` theorems; each is witnessed in Props/C01.lean and replayed on the implementation
+by the `fe.params` suite.  (Two former holes -- a literal as `List` / `Map` element type, a non-integral `List`
+length -- and the former crash site `List(T, min_items="a")` were repaired in the code; the model follows.) -/
 
 /-- H3: `String(pattern=0)`: a falsy non-string pattern skips `if pattern:` -/
 def holeFalsyPattern (k : TyKind) (kw : List (String × Arg)) : Bool :=
@@ -458,14 +418,7 @@ def holeFarSide (k : TyKind) (kw : List (String × Arg)) : Bool :=
     (match conv (kw.lookup "max_value"), (floatLimits k).1 with | some x, some l => x.lt l | _, _ => false)
   | _ => false
 
-def hitsHole (k : TyKind) (pos : List Arg) (kw : List (String × Arg)) : Bool :=
-  holeElemNotType k pos || holeFloatLength k kw || holeFalsyPattern k kw || holeFarSide k kw
-
-/-- crash site: `List(T, min_items=<str | null | type>)` (same for `max_items`): `<` raises `TypeError` -/
-def hitsListLengthCrash (k : TyKind) (kw : List (String × Arg)) : Bool :=
-  k == .list && ["min_items", "max_items"].any (fun key =>
-    match kw.lookup key with
-    | some a => a.num?.isNone
-    | none => false)
+def hitsHole (k : TyKind) (kw : List (String × Arg)) : Bool :=
+  holeFalsyPattern k kw || holeFarSide k kw
 
 end StoneVerif.FeParams
